@@ -55,7 +55,7 @@ def run(ctx):
     # targets = address + 8 / 4 + offset mod 2^32, link values, instruction-set selection, alignment, frame); then the same
     # scenarios are executed by the real code
     full = 'FALSE' if ctx.quick else 'TRUE'
-    ctx.mc('MC_BR', constants={'GEN': 'FALSE', 'FULL': full}, coverage=False, timeout=3000)
+    # one run: the invariants are checked and (GEN) every scenario is printed
     rs = ctx.mc('MC_BR', constants={'GEN': 'TRUE', 'FULL': full}, coverage=False, timeout=3000)
     grid = [x for x in tlc.printed_json(rs['out']) if isinstance(x, dict) and 'ia' in x]
     if len(grid) < 15000:
